@@ -43,8 +43,16 @@ def generate(rng, focus, tier="quick"):
     etod = rng.choice([t for t in TODS if t >= stod])
     start = d0 * DAY + stod
     end = (d0 + length) * DAY + etod
-    plan = {"world": NAME, "start": start, "end": end, "pre": rng.random() < 0.5, "post": rng.random() < 0.5,
-            "wd": rng.choice(cal.WEEKDAYS), "pm": rng.random() < 0.3, "fault": None}
+    # sub-minute parts of the start's time of day (seconds / microseconds); the end's time of day stays >= it
+    sub_s, sub_us = 0, 0
+    if rng.random() < 0.3 and stod < 23 * 3600 + 59 * 60:
+        sub_s = rng.choice([0, 1, 30, 59])
+        sub_us = rng.choice([0, 0, 1, 250000, 999999])
+        start += sub_s
+        if end % DAY < start % DAY + 1:
+            end = (end // DAY) * DAY + (start % DAY) + 1
+    plan = {"world": NAME, "start": start, "end": end, "start_us": sub_us, "pre": rng.random() < 0.5,
+            "post": rng.random() < 0.5, "wd": rng.choice(cal.WEEKDAYS), "pm": rng.random() < 0.3, "fault": None}
     if rng.random() < 0.3:
         plan["wd"] = plan["wd"].lower() if rng.random() < 0.7 else plan["wd"].capitalize()
     r = rng.random()
@@ -74,6 +82,12 @@ def _run(plan, ctx):
     from qstrader.system.rebalance.buy_and_hold import BuyAndHoldRebalance
     start, end = plan["start"], plan["end"]
     S, E = ts(start), ts(end)
+    if plan.get("start_us"):
+        import pandas as pd
+        S = S + pd.Timedelta(microseconds=int(plan["start_us"]))
+        ctx.probe("start_with_microseconds")
+    if start % 60:
+        ctx.probe("start_with_seconds")
     ctx.step = 0
     ctx.sim_seconds = max(0, end - start)
     span = (end - start) // DAY
@@ -147,8 +161,10 @@ def _run(plan, ctx):
             ("daily", lambda: DailyRebalance(S, E, pre_market=pm)),
             ("end_of_month", lambda: EndOfMonthRebalance(S, E, pre_market=pm))):
         try:
-            reb = [epoch(t) for t in build().rebalances]
-            tz_ok = all(str(t.tz) == "UTC" for t in build().rebalances)
+            raw = list(build().rebalances)
+            reb = [epoch(t) for t in raw]
+            tz_ok = all(str(t.tz) == "UTC" for t in raw)
+            sharp = all(t.value % 1000000000 == 0 for t in raw)
         except Exception as e:
             ctx.violate("C13", "schedule_raised_on_valid_range",
                         {"kind": kind, "start": iso(start), "end": iso(end), "exc": repr(e)[:300]},
@@ -166,6 +182,17 @@ def _run(plan, ctx):
             return
         ctx.ok("C13")
         ctx.check("C13", tz_ok, "schedule_not_utc", lambda: {"kind": kind})
+        if not ctx.check("C13", sharp, "schedule_instant_not_stamped_on_the_second",
+                         lambda: {"kind": kind, "instants": [str(t) for t in raw[:3]], "start": str(S)},
+                         sig="schedule_instant_not_stamped_on_the_second:" + kind):
+            return
+        # the membership test the session itself performs: Timestamp equality with a clock event
+        real_ts = set(t for t, _ in events)
+        lost_ts = [str(t) for t in raw if t not in real_ts]
+        if not ctx.check("C13", not lost_ts, "scheduled_instant_is_not_a_clock_event",
+                         lambda: {"kind": kind, "instants": lost_ts[:5], "start": str(S), "end": iso(end)},
+                         sig="scheduled_instant_is_not_a_clock_event:" + kind):
+            return
         ctx.check("C13", all(reb[i] < reb[i + 1] for i in range(len(reb) - 1)), "schedule_not_strictly_increasing",
                   lambda: {"kind": kind})
         # every instant coincides with an event the real clock emits for the same range
@@ -220,4 +247,9 @@ def simplifications(plan):
     if start % DAY != 0:
         p = copy.deepcopy(plan)
         p["start"] = start - start % DAY
+        p["start_us"] = 0
+        yield p
+    if plan.get("start_us"):
+        p = copy.deepcopy(plan)
+        p["start_us"] = 0
         yield p
